@@ -445,7 +445,7 @@ theorem keyFromData_dataCell (v : Version) (hv : v ≠ .highloadV2R2) (pk : List
     keyFromData v.goIndex (dataCell v pk o) = .ok pk := by
   have hk : bitsToBytes (pkBits pk) = pk := by
     unfold pkBits
-    rw [bitsToBytes_bytesToBits, pkBytes_of_length hpk]
+    rw [bitsToBytes_bytesToBits_co, pkBytes_of_length hpk]
   have v12 : ∀ ver, ver ≤ 4 → keyFromData ver (Cell.ordinary (natToBits 32 0 ++ pkBits pk) []) = .ok pk := by
     intro ver h
     have := keyFromData_v1v2 ver h (natToBits 32 0) (pkBits pk) [] [] (by simp) (by simp)
